@@ -267,6 +267,88 @@ fn run_case(case: &Case, ev: &Evidence) -> CaseResult {
     if let Some(k) = app_keys.intersection(&hs_keys).next() {
         return Err(fail("application_and_handshake_share_a_key", hex::encode(&k[..4])));
     }
+    // Phase 2: messages that are overtaken by a commit. They reach the receiver in the next epoch (the old epoch is retained),
+    // in a permuted order, possibly after a write + reload: each is accepted exactly once, every further copy is rejected,
+    // also after another write + reload.
+    let mut late_ok = 0u64;
+    let mut late_dup = 0u64;
+    // the commit is an encrypted handshake message itself: its sender must not have skipped handshake generations beyond the window
+    let committers: Vec<usize> = members.iter().copied().filter(|m| !both_ratchets.contains(&(*m, true))).collect();
+    if case.c(7) % 4 != 0 && members.len() >= 2 && !committers.is_empty() {
+        let r = members[pick(case.c(8), members.len())];
+        // only senders whose application ratchet the receiver has followed to the end (nothing left beyond the window)
+        let senders: Vec<usize> = members
+            .iter()
+            .copied()
+            .filter(|m| *m != r)
+            .filter(|m| {
+                let sent = send_gen.get(&(*m, false)).copied().unwrap_or(0);
+                let next = model.get(&r).and_then(|x| x.get(&(*m, false))).map(|rm| rm.next).unwrap_or(0);
+                sent == next
+            })
+            .collect();
+        let mut late: Vec<(usize, u32, Vec<u8>, Vec<u8>)> = vec![];
+        for (si, s) in senders.iter().take(2).enumerate() {
+            for i in 0..1 + (case.c(9) as usize + si) % 3 {
+                let payload = vec![0xA0 + i as u8; 3 + si];
+                let party = &mut w.parties[*s];
+                if party.g().commit_required() {
+                    party.gm().clear_proposal_cache();
+                }
+                let leaf = party.leaf();
+                let pl = payload.clone();
+                let m = guard(|| party.gm().encrypt_application_message(&pl, vec![])).map_err(|e| setup_failure(P, "encrypt", &e))?;
+                late.push((*s, leaf, m.to_bytes().expect("enc"), payload));
+            }
+        }
+        for m in &members {
+            w.parties[*m].gm().clear_proposal_cache();
+        }
+        let committer = committers[pick(case.c(6), committers.len())];
+        match w.commit_round(committer, &CommitSpec::default())? {
+            Ok(_) => {}
+            Err(e) => return Err(setup_failure(P, "commit_between_phases", &e)),
+        }
+        if case.c(7) % 3 == 0 {
+            w.save(r).map_err(|e| setup_failure(P, "write_to_storage", &e))?;
+            w.reload(r).map_err(|e| setup_failure(P, "load_group", &e))?;
+        }
+        for round in 0..3 {
+            for i in permutation(late.len(), case.c(5) as u64 + round) {
+                let (s, leaf, bytes, payload) = &late[i];
+                let res = w.process(r, bytes);
+                match (round, res) {
+                    (_, Err(e)) if e.is_panic() => return Err(panic_failure(P, "process_incoming_message(late message)", &e)),
+                    (0, Ok(ReceivedMessage::ApplicationMessage(d))) => {
+                        if d.sender_index != *leaf || d.data() != &payload[..] {
+                            return Err(fail("decrypted_message_misreported", format!("receiver {r}: late message of sender {s}")));
+                        }
+                        late_ok += 1;
+                    }
+                    (0, Ok(o)) => return Err(fail("message_wrong_kind", format!("{o:?}").chars().take(100).collect())),
+                    (0, Err(e)) => {
+                        return Err(fail(
+                            &format!("late_message_of_retained_epoch_rejected|{}", e.class()),
+                            format!("receiver {r}: message of sender {s} from the previous epoch (retained), first delivery: {}", e.text()),
+                        ))
+                    }
+                    (_, Ok(_)) => {
+                        return Err(fail(
+                            "replay_accepted|late_message_of_previous_epoch",
+                            format!("receiver {r} accepted a message of sender {s} from the previous epoch a second time (round {round}{})", if round == 2 { ", after write + reload" } else { "" }),
+                        ))
+                    }
+                    (_, Err(_)) => late_dup += 1,
+                }
+            }
+            if round == 1 {
+                w.save(r).map_err(|e| setup_failure(P, "write_to_storage", &e))?;
+                w.reload(r).map_err(|e| setup_failure(P, "load_group", &e))?;
+            }
+        }
+    }
+    ev.class_n("late_messages_of_previous_epoch_accepted_once", late_ok);
+    ev.class_n("late_message_replays_rejected", late_dup);
     ev.class_n("aead_seals_checked_for_uniqueness", seals);
     ev.class_n("deliveries_out_of_order", out_of_order);
     ev.class_n("duplicate_deliveries_rejected", duplicates);
@@ -342,7 +424,7 @@ pub fn run(ctx: &Ctx) -> ! {
     let ev = Evidence::new(P, ctx.tier, ctx.seed, "exploration");
     ev.set_rule(
         "one epoch, 2-4 members with encrypted handshake messages; generated streams of application messages and encrypted proposals from 1-4 senders (the sender discards 0/1/2/5/30/1023/1024/1025 \
-         messages before one that is delivered), per-receiver delivery schedules with permutation, duplicates, late delivery and write+reload of sender or receiver mid-stream. Oracle: explicit \
+         messages before one that is delivered), per-receiver delivery schedules with permutation, duplicates, late delivery and write+reload of sender or receiver mid-stream; then messages overtaken by a commit are delivered in the next epoch (accepted once, every replay rejected, also across write+reload). Oracle: explicit \
          exactly-once model per (receiver, sender, ratchet): {consumed generations, ratchet position}; a delivery must succeed iff its generation is unconsumed and at most 1024 ahead, yielding \
          the original payload and sender; a consumed generation must be rejected; beyond the window only no-panic is demanded; at the end every message has been accepted exactly once by every \
          receiver. Recorder oracle: all (key, nonce) pairs of all AEAD encryptions of all members are pairwise distinct; keys used for application content and handshake content are disjoint. \
